@@ -23,3 +23,18 @@ Print Assumptions C15_extract_tags_v2_fragment.
 Example C15_example :
   ExtractInstanceTags (encode (v3_header 3 4660 22136 ++ [1;2;3])) = Ok (Some (22136, 4660)).
 Proof. vm_compute; reflexivity. Qed.
+
+(* conversation level: a version 3 message for / from another instance is dropped before its body is looked at *)
+From OTR Require Import Gen.Consts Bytes.Text Proto.SmpTypes Proto.Keys Proto.Smp Proto.SmpInst Proto.Conv Proto.ConvProofs.
+From RecordUpdate Require Import RecordSet.
+Import RecordSetNotations.
+Theorem C15_foreign_instance_ignored : forall now c stag rtag body aux rnd,
+  isOTREnabled (c_policies c) = true -> c_version c = 3 ->
+  c_minValidInstanceTag <= stag -> (rtag = 0 \/ c_minValidInstanceTag <= rtag) ->
+  ((rtag <> 0 /\ rtag <> c_ourTag c) \/ (c_theirTag c <> 0 /\ stag <> c_theirTag c)) ->
+  let '(c', r) := step now c (CReceive (WEnc 3 stag rtag body) aux rnd) in
+  r_plain r = None /\ r_out r = c_injections c /\ r_err r = 0 /\
+  r_events r = [c_MessageEventReceivedMessageForOtherInstance] /\
+  c' = c <| c_injections := [] |>.
+Proof. exact foreign_instance_ignored. Qed.
+Print Assumptions C15_foreign_instance_ignored.
